@@ -284,6 +284,21 @@ type Client struct {
 
 var _ bapi.Client = (*Client)(nil)
 
+// Clone returns an independent store with the same contents and revision (values are immutable
+// byte slices, so this is cheap) and no clients, hooks, watchers or event history.  Use it to
+// start many runs from one prepared initial state.
+func (s *Store) Clone() *Store {
+	s.mu.Lock()
+	defer s.mu.Unlock()
+	n := New()
+	n.rev = s.rev
+	for p, e := range s.data {
+		c := *e
+		n.data[p] = &c
+	}
+	return n
+}
+
 // NewClient returns a new logical client of the store.
 func (s *Store) NewClient(name string) *Client {
 	s.mu.Lock()
